@@ -78,6 +78,7 @@ const prelude = `(set-option :produce-models true)
 (declare-fun bv.of ((Array Int Int) Int Int) BV)
 (declare-fun bv.ofstr (String) BV)
 (declare-fun bv.tostr (BV) String)
+(assert (forall ((a! (Array Int Int)) (o! Int) (n! Int)) (! (= (bv.len (bv.of a! o! n!)) n!) :pattern ((bv.of a! o! n!)))))
 (declare-fun bits.and (Int Int) Int)
 (declare-fun bits.or (Int Int) Int)
 (declare-fun bits.xor (Int Int) Int)
